@@ -563,8 +563,14 @@ def numeric_cases(rng, quick, derives):
             for (trait, _, _) in ds:
                 out.append((trait, "struct A<T, const N: usize>(%s);" % t))
                 out.append((trait, "enum A<T> { V { a: %s }, W }" % t))
-    # very many fields / variants (numbered variables, `_N` names, tuple indexes)
-    for cnt in ((70, 300) if quick else (70, 300, 1200)):
+    return out
+
+
+def many_members_cases(quick, derives):
+    """very many fields / variants (numbered variables, `_N` names, tuple indexes); Unwrap / TryUnwrap emit one match arm
+    per variant in each of their 3 methods per variant (quadratic output), so the answer-time limit grows with the size"""
+    out = []
+    for cnt in ((70, 200) if quick else (70, 300, 600)):
         tup = "struct A<T>(%s);" % ", ".join(["T"] * cnt)
         named = "struct A<T> { %s }" % ", ".join("f%d: T" % k for k in range(cnt))
         enum = "enum A { %s }" % ", ".join("V%d" % k for k in range(cnt))
@@ -575,6 +581,141 @@ def numeric_cases(rng, quick, derives):
         out.append(("Display", "#[display(\"{_%d} {_%d}\")] %s" % (cnt - 1, cnt, tup)))
         out.append(("TryFrom", "#[try_from(repr)] #[repr(u8)] " + enum))
     return out
+
+
+def answer_limit(item):
+    """seconds a single expansion may take before it counts as a hang: 10 s, scaled quadratically for items with more
+    than 300 members (the quadratic expansions are slow but bounded)"""
+    members = item.count(",") + 1
+    return 10 if members <= 300 else min(300, int(10 * (members / 300.0) ** 2) + 10)
+
+
+# ------------------------------------------------------------------ ties of the Part C models (model vs real code)
+
+META_IDS = ["ignore", "forward", "owned", "ref", "ref_mut", "not", "types", "source", "backtrace", "bogus", "a::b"]
+META_CONTEXTS = [   # (derive, item template, allowed parameters at that position)
+    ("TryInto", "#[try_into%s] enum E { A(i32), B(u8) }", ["ignore", "owned", "ref", "ref_mut"], "try_into"),
+    ("Unwrap", "enum E { #[unwrap%s] A(i32), B }", ["ignore", "owned", "ref", "ref_mut"], "unwrap"),
+    ("Error", "struct E { #[error%s] a: i32 }", ["ignore", "source", "backtrace"], "error"),
+    ("Deref", "struct D(#[deref%s] Vec<i32>, u8);", ["ignore", "forward"], "deref"),
+    ("IntoIterator", "struct D(#[into_iterator%s] Vec<i32>, u8);", ["ignore", "owned", "ref", "ref_mut"], "into_iterator"),
+]
+
+
+def gen_pmeta(rng, depth=0):
+    """-> (rust tokens, Coq pmeta term)"""
+    ident = rng.choice(META_IDS)
+    cid = "None" if "::" in ident else '(Some "%s"%%string)' % ident
+    if rng.random() < (0.55 if depth == 0 else 0.7) or depth >= 3:
+        return ident, "(PMPath %s)" % cid
+    k = rng.random()
+    if k < 0.15:
+        lit = rng.choice(["1", "\"x\"", "a b", "=", "1, owned"])
+        return "%s(%s)" % (ident, lit), "(PMList %s false [] None)" % cid
+    kids = [gen_pmeta(rng, depth + 1) for _ in range(rng.choice([0, 1, 1, 2, 3]))]
+    toks = ", ".join(k[0] for k in kids) + ("," if kids and rng.random() < 0.2 else "")
+    return "%s(%s)" % (ident, toks), "(PMList %s true [%s] None)" % (cid, "; ".join(k[1] for k in kids))
+
+
+def meta_tie_cases(rng, n):
+    cases = []
+    for _ in range(n):
+        derive, tmpl, allowed, name = rng.choice(META_CONTEXTS)
+        r = rng.random()
+        if r < 0.04:
+            body, shape = "", "ASPath"
+        elif r < 0.07:
+            body, shape = " = \"x\"", "ASNameValue"
+        else:
+            ms = [gen_pmeta(rng) for _ in range(rng.choice([0, 1, 1, 2, 3]))]
+            body = "(%s)" % ", ".join(m[0] for m in ms)
+            shape = "(ASList true [%s])" % "; ".join(m[1] for m in ms)
+        attrs = "[%s]" % shape
+        item = tmpl % body
+        if r > 0.97:                                   # two attributes
+            item = item.replace("#[%s" % name, "#[%s(ignore)] #[%s" % (name, name), 1)
+            attrs = "[ASList true [PMPath (Some \"ignore\"%%string)]; %s]" % shape
+        coq = "p_ok (get_meta_info [%s]%%string %s)" % ("; ".join('"%s"' % a for a in allowed), attrs)
+        cases.append((derive, item, coq))
+    return cases
+
+
+LEGACY_NAMES = [("owned", "NOwned"), ("ref", "NRef"), ("ref_mut", "NRefMut"), ("types", "NTypes"), ("foo", "NOtherName")]
+
+
+def gen_type_list(rng):
+    """arguments of a `types(..)`-like list -> (tokens, Coq option (list bool))"""
+    if rng.random() < 0.1:
+        return "&'a str", "None"
+    els = []
+    for _ in range(rng.choice([0, 1, 1, 2, 3])):
+        els.append(rng.choice([("\"&str\"", "true"), ("i32", "true"), ("a::B", "true"), ("\"x\"", "true"), ("u8", "true"),
+                               ("String", "true"), ("1", "false"), ("x(y)", "false"), ("true", "false")]))
+    return ", ".join(e[0] for e in els), "(Some [%s])" % "; ".join(e[1] for e in els)
+
+
+def gen_lmeta(rng):
+    name, cname = rng.choice(LEGACY_NAMES + [("types", "NTypes")] * 3)
+    if rng.random() < 0.3:
+        return name, "(LMPath %s)" % cname
+    if cname in ("NOwned", "NRef", "NRefMut"):
+        k = rng.random()
+        if k < 0.1:
+            return "%s(+)" % name, "(LMList %s None IParseFail)" % cname
+        if k < 0.2:
+            return "%s()" % name, "(LMList %s (Some []) IEmpty)" % cname
+        lead = rng.choice(["", "i32, ", "\"x\", "])
+        if k < 0.45:
+            last = rng.choice(["i32", "\"&str\"", "1"])
+            return "%s(%s%s)" % (name, lead, last), "(LMList %s None ILastNotList)" % cname
+        iname, icname = rng.choice(LEGACY_NAMES + [("types", "NTypes")] * 4)
+        toks, tl = gen_type_list(rng)
+        return ("%s(%s%s(%s))" % (name, lead, iname, toks),
+                "(LMList %s None (ILastList %s %s))" % (cname, "true" if icname == "NTypes" else "false", tl))
+    toks, tl = gen_type_list(rng)
+    return "%s(%s)" % (name, toks), "(LMList %s %s IEmpty)" % (cname, tl)
+
+
+def legacy_tie_cases(rng, n):
+    cases = []
+    for _ in range(n):
+        if rng.random() < 0.05:
+            body, coq = rng.choice(["1", "\"x\", types(i32)", "i32 +"]), "None"
+        else:
+            ms = [gen_lmeta(rng) for _ in range(rng.choice([1, 1, 2, 3]))]
+            body, coq = ", ".join(m[0] for m in ms), "(Some [%s])" % "; ".join(m[1] for m in ms)
+        nf = rng.choice([1, 1, 2, 0])
+        item = "#[into(%s)] struct A%s;" % (body, "(" + ", ".join(["i32"] * nf) + ")") if nf else "#[into(%s)] struct A;" % body
+        cases.append(("Into", item, "fst (check_legacy_syntax %d %s)" % (nf, coq)))
+    return cases
+
+
+def run_model_ties(chk, binary, rng, quick):
+    """the Part C models against the real derives on generated attribute bodies"""
+    n = 350 if quick else 3000
+    meta = meta_tie_cases(rng, n)
+    legacy = legacy_tie_cases(rng, n)
+    real = common.run_jsonl(binary, [{"cmd": "expand", "derive": d, "item": it, "summary": False} for d, it, _ in meta + legacy],
+                            timeout=60)
+    model = common.coq_eval(["Verif.Gen.PanicSiteList", "Verif.C18.Model"], [c for _, _, c in meta + legacy], batch=200, tag="c18tie")
+    nm = 0
+    for k, ((d, it, coq), r, m) in enumerate(zip(meta + legacy, real, model)):
+        if r is None or "item_unparsable" in r or "bad_request" in r:
+            continue
+        nm += 1
+        if k < len(meta):
+            real_ok = ("ok" in r) or ("panic" in r and "/impl/src/" in r["panic"].get("loc", ""))   # later, diagnostic stage
+            what = "attribute parser accepts"
+        else:
+            real_ok = "err" in r and r["err"].startswith("legacy syntax")
+            what = "legacy syntax reported"
+        chk.bump("tie:" + ("meta" if k < len(meta) else "legacy"))
+        if (m == "true") != real_ok:
+            chk.violation("tie-meta-model" if k < len(meta) else "tie-legacy-model",
+                          {"derive": d, "item": it, "model": m, "model_term": coq, "real": str(r)[:300]},
+                          "Coq model and real code disagree (%s: model %s, real %s) on %s" % (what, m, real_ok, it))
+    chk.cov["traces_validated_against_impl"] = chk.cov.get("traces_validated_against_impl", 0) + nm
+    return nm
 
 
 # lemma of Proofs.v that stops checking -> derives whose expansion exercises the modelled function
@@ -588,6 +729,19 @@ LEMMA_FOCUS = {
     "placeholder_counter_safe": ["Display", "Debug"], "balanced_pair_count_safe": ["Display", "Debug"],
     "assert_single_enabled_field_safe": ["Deref", "DerefMut", "Index", "IndexMut", "IntoIterator", "FromStr"],
     "len1_index0_safe": ["FromStr"], "fmt_trait_names_total": ["Display", "Debug"],
+    # Part C: obligations over extracted expressions / guards and the new models
+    "isf_exp_is": ["Error"], "isf_guard_present": ["Error"], "infer_source_arith_safe": ["Error"],
+    "pfs_star_is": ["Display", "Debug"], "pfs_next_is": ["Display", "Debug"], "pfs_pos_is": ["Display", "Debug"],
+    "parse_fmt_counter_safe": ["Display", "Debug"],
+    "bp_dec_is": ["Display", "Debug"], "bp_inc_is": ["Display", "Debug"], "bp_guard_present": ["Display", "Debug"],
+    "balanced_pair_x_safe": ["Display", "Debug"],
+    "tf_inc_is": ["TryFrom"], "try_from_counter_safe": ["TryFrom"], "ff_inc_is": ["From"], "from_forward_counter_safe": ["From"],
+    "ppnm_meta_wrapped": ["TryInto", "Unwrap", "TryUnwrap", "Error", "Deref", "IntoIterator", "Mul", "Add"],
+    "ppnm_meta_top": ["TryInto", "Unwrap", "TryUnwrap", "Error", "Deref", "IntoIterator", "Mul", "Add"],
+    "meta_parser_safe": ["TryInto", "Unwrap", "TryUnwrap", "Error", "Deref", "IntoIterator", "Mul", "Add"],
+    "get_meta_info_total": ["TryInto", "Unwrap", "TryUnwrap", "Error", "Deref", "IntoIterator", "Mul", "Add"],
+    "check_legacy_syntax_safe": ["Into"],
+    "call_depth_le_ty_depth": ["Error", "Display", "Debug", "AsRef", "AsMut"],
 }
 
 
@@ -623,6 +777,16 @@ CORPUS = [
     ("Into", "#[into(i32 i64)] struct A(i32);"),                    # push_value panic until /repo 04051df
     ("Into", "#[into(owned(i32) i64)] struct A(i32);"),             # ... until /repo 4f1b004
     ("Into", "struct A(#[into(ref(i32) i64, u8)] i32);"),
+    # seeded change_2 (push_punct guard): a trailing comma inside a wrapper group followed by another item, and the
+    # same wrapper keyword typed first then bare; struct and field level, also laid out over several lines
+    ("Into", "#[into(owned(i64,), ref(i32))] struct A(i32);"),
+    ("Into", "#[into(\n    owned(i64,),\n    ref(i32),\n)]\nstruct A(i32);"),
+    ("Into", "#[into(owned(i64), owned, ref)] struct A(i32);"),
+    ("Into", "struct A(#[into(owned(i64,), ref(i32))] i32, u8);"),
+    ("Into", "struct A { #[into(owned(i64), owned, ref)] a: i32, b: u8 }"),
+    ("Into", "#[into(ref(i32,), ref_mut(i32,), owned)] struct A(i32);"),
+    ("Into", "#[into(owned, owned(i64,), owned)] struct A(i32);"),
+    ("Into", "#[into(ref_mut(i32), ref_mut, ref_mut(u8,),)] struct A { a: i32 }"),
     ("From", "#[from((),)] struct A(i32);"),
     ("FromStr", "enum E { r#fn, r#Fn }"),
     ("Into", "#[into(types(1))] struct A(i32);"),
@@ -772,6 +936,8 @@ def render(toks):
 def shrink(binary, judge, derive, item, klass, max_rounds=40):
     """greedy delta-debugging on the token list of the item: drop attributes / fields / variants / tokens while the
     same violation class persists"""
+    if klass in ("hang", "crash", "no-response"):
+        return item                       # every trial would cost the whole watchdog time
     try:
         toks = tokens_of(item)
     except Exception:
@@ -788,7 +954,9 @@ def shrink(binary, judge, derive, item, klass, max_rounds=40):
         return item
     rounds = 0
     size = max(1, len(toks) // 2)
-    while size >= 1 and rounds < max_rounds:
+    import time as _time
+    t_end = _time.time() + (20 if klass in ("hang", "crash") else 60)
+    while size >= 1 and rounds < max_rounds and _time.time() < t_end:
         rounds += 1
         cands = [toks[:i] + toks[i + size:] for i in range(0, len(toks), max(1, size // 2) if size > 1 else 1)
                  if i < len(toks)]
@@ -886,6 +1054,14 @@ def run(tier, seed, replay):
                           % (lemma, key, str(r)[:120]), no_input=True)
     chk.cov["traces_validated_against_impl"] = chk.cov.get("traces_validated_against_impl", 0) + n_wit
 
+    # ---- ties of the attribute meta parser / legacy detector models
+    if not getattr(chk, "proof_broken", False) and not replay:
+        try:
+            n_tie = run_model_ties(chk, binary, rng, tier == "quick")
+            chk.log("model ties: %d generated attribute bodies (meta parser, legacy detector) compared with the real derives" % n_tie)
+        except common.BuildError as e:
+            chk.notes.append("model ties not evaluated: %s" % str(e)[-300:])
+
     # ---- A-IDENT: identifiers accepted by the literal parser are accepted by Ident::new (format_ident!("{name}"))
     ip = common.run_jsonl(binary, [{"cmd": "ident_probe", "lo": lo, "hi": min(lo + 0x8000, 0x110000)}
                                    for lo in range(0, 0x110000, 0x8000)], timeout=120)
@@ -914,7 +1090,7 @@ def run(tier, seed, replay):
         # a crash / hang is confirmed by running the culprit alone (10 s limit)
         for i, r in enumerate(rs):
             if r is None or "crash" in r:
-                rs[i] = run_single(binary, reqs[i])
+                rs[i] = run_single(binary, reqs[i], limit=answer_limit(reqs[i]["item"]))
             elif "panic" in r and "/impl/src/" not in r["panic"].get("loc", "") and not r["panic"].get("frames"):
                 rs[i] = run_single(binary, reqs[i])      # the stack capture of a dependency panic was empty: once more
         for (d, it, bucket), r in zip(cases, rs):
@@ -948,6 +1124,7 @@ def run(tier, seed, replay):
         # (a'') numeric inputs at and around the limits of every integer type
         run_batch([(d, it, "discriminant") for d, it in discriminant_cases(rng, quick)])
         run_batch([(d, it, "numeric") for d, it in numeric_cases(rng, quick, derives)], timeout=60)
+        run_batch([(d, it, "many-members") for d, it in many_members_cases(quick, derives)], timeout=400, chunk=4)
         # (b) every derive x every base shape, no attributes
         cases = []
         for (trait, module, declared) in derives:
@@ -960,8 +1137,8 @@ def run(tier, seed, replay):
         for (trait, module, declared) in derives:
             names = g.attr_names(trait, declared)
             bodies = SEED_BODIES + [b for nm in declared for b in doc_bodies.get(nm, [])]
-            if quick:
-                bodies = rng.sample(bodies, min(len(bodies), 40 if declared else 12))
+            if quick and not declared:
+                bodies = rng.sample(bodies, min(len(bodies), 12))     # derives without an attribute of their own
             for b in bodies:
                 nm = names[0]
                 a = "#[%s(%s)]" % (nm, b)
